@@ -35,9 +35,9 @@ CHECKS = {
                   "itself; Publish with or without rollover keeps every file name (so 'only appended to' gives that premise); the "
                   "backup opens in every mode (hence passes Open with Check) to a handle with the same live messages and NextOffset as the "
                   "source at the time of the call, and by the C03/C04/C09/C10 theorems answers queries alike; the call changes nothing "
-                  "in the source but lazily rebuilt index files. Not modelled: file copy mechanics (fsync, size+mtime skip rule, partial "
-                  "copies) - the skip rule is exercised only by the runs (incl. same-size rewrites within one mtime tick are out of the "
-                  "stated precondition). Tied to /repo by seeded histories with Backup into fresh and reused directories after appends "
+                  "in the source but lazily rebuilt index files. The skip rule is safe on append-only files (equal length and prefix give "
+                  "equal content - a lemma); not modelled: file copy mechanics (fsync, mtime, partial copies) - exercised only by the runs "
+                  "(same-size rewrites within one mtime tick are out of the stated precondition). Tied to /repo by seeded histories with Backup into fresh and reused directories after appends "
                   "(rollovers, reopen, both versions): the target's file listing, a full observation of the opened backup (Consume, Get, "
                   "key/time lookups, Stat, NextOffset) and Check on every copied segment are compared with the source's observation at "
                   "the time of the call, with the extracted model (backup_dir is extracted, not re-implemented in the driver), and the "
@@ -47,7 +47,8 @@ CHECKS = {
  'C15': dict(text="Proof (Coq): a Hoare rule for the helpers' loop `for offset := OffsetOldest; offset < max && cond; Consume(offset, 32)` "
                   "that holds for every way Consume cuts the log into batches (built on: Consume returns no message only when nothing is "
                   "left); with it, on every state satisfying Inv: FindByOffset selects exactly the live offsets below the bound; FindByCount "
-                  "exactly the first count-max offsets (Stat is proved to count exactly the live messages); FindBySize the shortest prefix "
+                  "exactly the first count-max offsets (Stat is proved to count exactly the live messages), and TrimByCountMulti leaves exactly "
+                  "the newest min(count, max) messages, untouched, with NextOffset unchanged; FindBySize the shortest prefix "
                   "whose removal brings the Stat size minus Size(m) of the selected messages below the target - no more than the estimate "
                   "requires; FindByAge a prefix containing no message newer than the given time, ending at the first newer message, the "
                   "end of the log or a batch boundary at/after the message GetByTime reports; Trim...Multi = find then DeleteMulti removes "
@@ -64,8 +65,9 @@ CHECKS = {
                   "messages that are the first message of their key); CompactUpdates (find then DeleteMulti) leaves the last live message of "
                   "every key unchanged, removes only such messages not newer than the cut-off, keeps every other message and NextOffset; "
                   "CompactDeletes leaves the latest VALUE of every key unchanged (a key whose only message is value-less is absent before "
-                  "and after); hence so does Compact, their composition. 'At most one message per key left' for monotone times is decided "
-                  "by the run-time check only. Tied to /repo by seeded histories over a small key alphabet with value-less messages and "
+                  "and after); hence so does Compact, their composition. Completeness: every examined message followed by a later examined "
+                  "message with the same key is selected, so at most one message per key is left among those not newer than the cut-off "
+                  "(that these are all examined when times never decrease is checked by the runs). Tied to /repo by seeded histories over a small key alphabet with value-less messages and "
                   "cut-offs around the time range: the key -> latest value map from a full scan before/after every Compact* call, the set "
                   "of removed offsets, compared with the extracted model and judged by check_latest_preserved / check_updates / "
                   "check_deletes on the implementation output.",
@@ -230,9 +232,9 @@ CHECKS = {
  'C19': dict(text="Partial. Proved (Coq) for the lock-table model of Flock.v, over every sequence of Open (both modes, succeeding or "
                   "failing), Close, Publish, Delete on any number of handles: an exclusive lock excludes all other handles, a read-write "
                   "Open needs a free directory, a read-only Open only the absence of a writer, a failed Open leaves the table unchanged, "
-                  "read-only handles reject Publish/Delete with ErrReadonly (also on the log model). That a read-only handle answers "
-                  "queries like a read-write one is the C03/C04 theorems (the model's readers are the same functions in both modes, and "
-                  "the checkers are evaluated on read-only sessions of generated histories). The model is tied to /repo by running "
+                  "read-only handles reject Publish/Delete with ErrReadonly (also on the log model). A read-only and a read-write Open of "
+                  "the same closed directory are proved to show the same abstract log (so by the C03/C04/C09/C10 theorems they answer "
+                  "queries alike; the checkers are also evaluated on read-only sessions of generated histories). The model is tied to /repo by running "
                   "every sequence of <=3 steps (4 in thorough) plus random ones on real handles: two in-process and one in a child process, "
                   "with corrupt-index and missing-directory opens; log-file checksums show read-only sessions change no log file.",
              ref='6/C19', technique='Coq proof over a lock-table model + exhaustive short sequences on real flock handles',
